@@ -69,7 +69,7 @@ def judge(ctx, runs, label, f1_open):
     ctx.count(traces=okn, evaluations=len(traces))
 
 
-def loopback_case(mode, maxdata, size, seed, rcvbuf=4096, read_pause=0.002, timeout=2.0):
+def loopback_case(mode, maxdata, size, seed, rcvbuf=4096, read_pause=0.001, timeout=5.0):
     m = env.mods()
     dev = simdev.SimDevice(seed=seed, auth=simdev.AuthPolicy(maxdata=maxdata))
     sd = sockdev.SockDevice(dev, rcvbuf=rcvbuf, read_size=4096, read_pause=read_pause, seed=seed)
@@ -86,9 +86,9 @@ def loopback_case(mode, maxdata, size, seed, rcvbuf=4096, read_pause=0.002, time
             from adb_shell.transport.tcp_transport import TcpTransport
             d = m['sync'].AdbDevice(TcpTransport('127.0.0.1', sd.port), default_transport_timeout_s=timeout)
             try:
-                d.connect(read_timeout_s=3.0)
+                d.connect(read_timeout_s=10.0)
                 d._io_manager._transport._connection.setsockopt(socket.SOL_SOCKET, socket.SO_SNDBUF, 4096)
-                d.push(io.BytesIO(data), '/big', mtime=5, read_timeout_s=3.0)
+                d.push(io.BytesIO(data), '/big', mtime=5, read_timeout_s=10.0)
                 out['outcome'] = 'ret'
             except Exception as e:  # noqa
                 out['outcome'] = 'exc:' + type(e).__name__
@@ -103,8 +103,8 @@ def loopback_case(mode, maxdata, size, seed, rcvbuf=4096, read_pause=0.002, time
             async def go():
                 d = m['asyn'].AdbDeviceAsync(TcpTransportAsync('127.0.0.1', sd.port), default_transport_timeout_s=timeout)
                 try:
-                    await d.connect(read_timeout_s=3.0)
-                    await d.push(io.BytesIO(data), '/big', mtime=5, read_timeout_s=3.0)
+                    await d.connect(read_timeout_s=10.0)
+                    await d.push(io.BytesIO(data), '/big', mtime=5, read_timeout_s=10.0)
                     out['outcome'] = 'ret'
                 except Exception as e:  # noqa
                     out['outcome'] = 'exc:' + type(e).__name__
@@ -173,9 +173,10 @@ def body(ctx):
     ctx.add_tlc(r, 'TraceEnv over %d loopback TCP pushes (server-side byte stream)' % len(lb))
     for (i, l, v) in ver:
         out = lb[i][0]
-        bad = v.startswith('C02.') or (out['outcome'] == 'ret' and not out['intact'])
+        # the peer is slow but healthy: the push must return and the file must have arrived intact
+        bad = v.startswith('C02.') or out['outcome'] != 'ret' or not out['intact']
         if bad:
-            ctx.violation('C15.PeerGetsAll', dict(kind='loopback-tcp', frame_clause=v, **out), finding='F1' if f1 else None)
+            ctx.violation('C15.LargePushArrivesIntact' if not v.startswith('C02.') else 'C15.PeerGetsAll', dict(kind='loopback-tcp', frame_clause=v, **out), finding='F1' if f1 else None)
         else:
             ctx.count(traces=1)
     ctx.extra['loopback'] = [o for o, _ in lb]
